@@ -1158,7 +1158,12 @@ func (s *Server) cleanupExpiredLeases() {
 
 	s.leasesMu.Lock()
 	for _, mac := range expired {
-		lease := s.leases[mac]
+		// Re-validate under the write lock: the lease may have been released
+		// or renewed since the scan above
+		lease, ok := s.leases[mac]
+		if !ok || !now.After(lease.ExpiresAt) {
+			continue
+		}
 		delete(s.leases, mac)
 
 		// Remove from circuit-ID secondary index
